@@ -54,6 +54,21 @@ def family():
                 progs.append(("deferred_%s_%s_%s" % (tag, "c" if cache else "n", rn),
                               {"cfg": cfg, "keys": ["k1", "k2"], "init": dinit,
                                "threads": [readers[rn], [{"op": "flush"}, {"op": "insert", "k": 2, "v": vb}, {"op": "flush"}]]}))
+        # device completely full: a TTL-only update cannot be written (its flush fails), the key keeps being
+        # served from the predecessor's extent, which must not be retired while the deferred generation
+        # is not durable (two flushed generations of k1 first: the older one is retired)
+        b2 = {"k": "b", "id": 8, "len": 5200, "n": 0}
+        fill2 = {"k": "b", "id": 9, "len": 5000, "n": 0}
+        fill4 = {"k": "b", "id": 10, "len": 13500, "n": 0}
+        finit = [{"op": "insert", "k": 1, "v": BIG1, "auto": False, "tsv": NOW - 10 * E9}, {"op": "flush"},
+                 {"op": "insert", "k": 1, "v": b2, "auto": False, "tsv": NOW - 9 * E9}, {"op": "flush"},
+                 {"op": "insert", "k": 2, "v": fill2, "auto": False, "tsv": NOW - 9 * E9},
+                 {"op": "insert", "k": 3, "v": fill4, "auto": False, "tsv": NOW - 9 * E9}, {"op": "flush"}]
+        for rn, r in (("get", [{"op": "get", "k": 1}, {"op": "get", "k": 1}]),
+                      ("range", [{"op": "range", "lo": 1, "hi": 1, "lim": 2}, {"op": "get", "k": 1}])):
+            progs.append(("fulldev_%s_%s" % ("c" if cache else "n", rn),
+                          {"cfg": cfg, "keys": ["k1", "k2", "k3"], "init": finit,
+                           "threads": [r, [{"op": "update_ttl", "k": 1, "ttlv": 90}, {"op": "flush"}, {"op": "flush"}]]}))
         # counters: increment reads the offloaded value
         init = [{"op": "insert", "k": 1, "v": CTR, "auto": False, "tsv": NOW - 10 * E9}, {"op": "flush"}]
         progs.append(("incr_%s" % ("c" if cache else "n"),
@@ -77,7 +92,8 @@ def run(tier, seed):
     fam = family()
     if tier == "quick":
         rng.shuffle(fam)
-        fam = [x for x in fam if x[0].startswith("deferred_")] + [x for x in fam if not x[0].startswith("deferred_")][:14]
+        keep = ("deferred_", "fulldev_")
+        fam = [x for x in fam if x[0].startswith(keep)] + [x for x in fam if not x[0].startswith(keep)][:14]
     groups = [fam[i:i + 2] for i in range(0, len(fam), 2)]
     shm = v.shm_dir("c08")
 
